@@ -348,6 +348,52 @@ def run(ctx: Any, prog: Program) -> None:
                         p = kv.parents.get(p)
                     ctx.check('C01.R5', guarded, kv, n, 'replacement of an already parsed child must be reachable only after a PROP_FLAG token')
 
+    # ---- R9: tree content is never part of a format template -----------------------------------------------------------------------------
+    # `template % args` / `template.format(args)` re-read the template: a `%` (or a brace) that came from a name or value is then a
+    # directive - `%%` silently becomes `%`, `100%` raises.  Content may only be an *argument* of such an operation.
+    ctx.rule('C01.R9', 'text built from tree content is never the template of a % / str.format operation', floor=2)
+    for qual, fn in writers.items():
+        defs9 = _local_defs(fn)
+
+        def content_in_template(e: ast.AST, depth: int = 0) -> Optional[ast.AST]:
+            if depth > 4:
+                return None
+            if isinstance(e, ast.JoinedStr):
+                for v in e.values:
+                    if isinstance(v, ast.FormattedValue):
+                        if _derives_from_content(v.value):
+                            return v.value
+                        h_ = content_in_template(v.value, depth + 1)
+                        if h_ is not None:
+                            return h_
+                return None
+            if isinstance(e, ast.Name):
+                for d_ in defs9.get(e.id, []):
+                    if _derives_from_content(d_):
+                        return d_
+                    h_ = content_in_template(d_, depth + 1)
+                    if h_ is not None:
+                        return h_
+                return None
+            if isinstance(e, ast.BinOp) and isinstance(e.op, ast.Add):
+                return content_in_template(e.left, depth + 1) or content_in_template(e.right, depth + 1)
+            if isinstance(e, ast.Call) and _derives_from_content(e):
+                return e
+            return None
+        n9 = 0
+        for n in walk_no_nested(fn):
+            tmpl = None
+            if isinstance(n, ast.BinOp) and isinstance(n.op, ast.Mod) and isinstance(n.left, (ast.JoinedStr, ast.Name, ast.BinOp, ast.Constant)):
+                tmpl = n.left
+            if isinstance(n, ast.Call) and isinstance(n.func, ast.Attribute) and n.func.attr in ('format', 'format_map') and isinstance(n.func.value, (ast.JoinedStr, ast.Name, ast.BinOp, ast.Constant)):
+                tmpl = n.func.value
+            if tmpl is None or (isinstance(tmpl, ast.Constant) and not isinstance(tmpl.value, str)):
+                continue
+            n9 += 1
+            hz = content_in_template(tmpl)
+            ctx.check('C01.R9', hz is None, kv, n, f'{qual} formats with the template `{U(tmpl)[:60]}`, which contains tree content (`{U(hz)[:40] if hz is not None else ""}`): a `%` or brace in that name/value is read as a '
+                      'format directive - it is dropped, doubled or raises', func=qual, text=f'{qual}: template `{U(tmpl)[:40]}` free of content')
+        ctx.check('C01.R9', True, kv, fn, f'{qual}: {n9} format operation(s) examined', func=qual, text=f'{qual}: format operations examined')
     # ---- R8: what _serialise renders is what comes out ----------------------------------------------------------------------
     # The public wrapper only chooses the stream and the brace spelling.  Text that is rendered into a side buffer and then re-cut by a
     # line-oriented function (textwrap.indent, splitlines, replace) is re-interpreted *as lines*: characters inside the quotes that such a
@@ -438,6 +484,8 @@ def _in_orelse(ifnode: ast.If, node: ast.AST, mod: Any) -> bool:
 
 
 MUTANTS = [
+    {'id': 'leaf_line_percent_formatted', 'file': 'keyvalues.py', 'find': "            file.write(f'{cur_indent}\"{escape_text(self._real_name)}\" \"{escape_text(self._value)}\"\\n')", 'replace': "            name_part = f'{cur_indent}\"{escape_text(self._real_name)}\"'\n            file.write(f'{name_part} \"%s\"\\n' % escape_text(self._value))", 'expect': 'C01.R9'},
+    {'id': 'ok_leaf_line_percent_constant_template', 'file': 'keyvalues.py', 'find': "            file.write(f'{cur_indent}\"{escape_text(self._real_name)}\" \"{escape_text(self._value)}\"\\n')", 'replace': "            file.write('%s\"%s\" \"%s\"\\n' % (cur_indent, escape_text(self._real_name), escape_text(self._value)))", 'expect': None, 'refuse_ok': True},
     {'id': 'start_indent_through_textwrap', 'file': 'keyvalues.py', 'find': "        self._serialise(file, indent, open_brace, close_brace, start_indent)\n", 'replace': "        if start_indent:\n            import textwrap\n            block = io.StringIO()\n            self._serialise(block, indent, open_brace, close_brace, '')\n            file.write(textwrap.indent(block.getvalue(), start_indent))\n        else:\n            self._serialise(file, indent, open_brace, close_brace, start_indent)\n", 'expect': 'C01.R8'},
     {'id': 'serialise_returns_stripped', 'file': 'keyvalues.py', 'find': "        if buffer is not None:\n            return buffer.getvalue()\n        return None\n\n    def _serialise(", 'replace': "        if buffer is not None:\n            return buffer.getvalue().replace('\\r', '')\n        return None\n\n    def _serialise(", 'expect': 'C01.R8'},
     {'id': 'escape_wrapper_fast_path_accepts_cr', 'file': 'keyvalues.py', 'find': """            file.write(f'{cur_indent}"{escape_text(self._real_name)}" "{escape_text(self._value)}"\\n')\n\n    serialize""", 'replace': """            file.write(f'{cur_indent}"{_escape(self._real_name)}" "{_escape(self._value)}"\\n')\n\n    serialize""", 'extra': [{'file': 'keyvalues.py', 'find': "def _read_flag(", 'replace': "_PLAIN_TEXT = re.compile(r'[\\w\\s./+:,-]*')\n\n\ndef _escape(text: str) -> str:\n    if _PLAIN_TEXT.fullmatch(text) is not None:\n        return text\n    return escape_text(text)\n\n\ndef _read_flag("}, {'file': 'keyvalues.py', 'find': "import sys\n", 'replace': "import sys\nimport re\n"}], 'expect': 'C01.R1'},
